@@ -14,6 +14,17 @@ import json
 
 from ..lib.common import Ctx, MachineryError, repo_python_path
 
+MANIFEST = {
+    "engine": "E1-Namespace",
+    "technique": "Lean 4 refinement proof (Namespace model refines a nested-dict spec) + regenerated clash table + step-by-step differential correspondence",
+    "text": "Theorems in lean/Jap/Props/C11.lean prove, for all keys, values and operation sequences, that the model of _namespace.py "
+            "refines a nested-dictionary specification whenever no key path runs through a plain dict value (the open known finding); the model is "
+            "tied to the code by regenerating dir(Namespace) into Gen/NsTables and by comparing model and real Namespace after every step of "
+            "generated and exhaustively enumerated operation sequences.",
+    "level_note": "Trusted: Lean kernel; axioms propext/Quot.sound/Classical.choice only; the extractor; the correspondence harness; String.splitOn as the "
+                  "model of str.split. Object identity is left to C08. Keys starting with U+200B and dict-only attribute names are outside the model.",
+}
+
 ORD = ["a", "b", "c"]
 CLASH = ["items", "keys", "get", "update", "pop", "clone", "values", "as_dict"]
 FINDING_DICT = "C11-through-dict"
@@ -596,7 +607,7 @@ def run(ctx: Ctx):
         "caller keys do not start with U+200B; dict-only attribute names (copy, clear, ...) are outside the segment alphabet",
         "object identity (clone independence) is the subject of C08, here only value-level equality",
     ]
-    ctx.lean_build()
+    ctx.lean_build(extractors=["ns_tables"])
 
     # --- corpus + known-finding witnesses -------------------------------
     from ..lib import corpus as corpus_mod
